@@ -53,6 +53,11 @@ structure Config where
   scripts : List (List Op)
   nw : Nat                    -- waiter ids are 0 .. nw-1
   deferred : Bool
+  /-- the receiver that completion_forwarder connects to the rescheduling `schedule()` answers
+      get_stop_token with the waiter's stop token.  `true` = the code as it stands.  `false` = the
+      proposed repair (answer with unstoppable_token, as v2::async_manual_reset_event's own
+      reschedule_receiver does). -/
+  fwdStop : Bool := true
 
 structure Frame where
   pc : Nat
@@ -225,7 +230,7 @@ def stepThr (cfg : Config) (s : St) (t : Nat) : Option (Lbl × St) :=
     | 14 =>  -- deferred scheduler: enqueue the schedule-operation
       some (tau t, pop { s with schedQ := s.schedQ ++ [i] } t)
     | 15 =>  -- the schedule-operation runs: get_stop_token(forwarder receiver).stop_requested()
-      if w.stopReq then
+      if w.stopReq && cfg.fwdStop then
         -- set_done on the forwarder's receiver → set_done on the final receiver.
         -- (if the lock was granted to i, it stays held: nothing releases it)
         some (deliverDone s t i)
@@ -287,6 +292,12 @@ def noHazard (s : St) : Bool := s.ws.all (fun w => !w.hazard)
 /-- waiters whose lock operation was started by some script (by construction: cb ≠ 0) -/
 def startedW (w : W) : Bool := w.cb ≠ 0
 
+/-- the end-state clause: every started waiter completed exactly once, nobody is queued or
+    scheduled, and the lock is not leaked (`locked` only if a party still holds it) -/
+def endOk (s : St) : Bool :=
+  s.ws.all (fun w => !startedW w || w.comps = 1) && s.queue.isEmpty && s.schedQ.isEmpty &&
+  (!s.locked || s.holders = 1)
+
 /-- The property as a state predicate.  Unconditional clauses:
     * `holders ≤ 1`: mutual exclusion — never two parties between acquisition and unlock;
     * every waiter completes at most once;
@@ -304,13 +315,14 @@ def safe (cfg : Config) (s : St) : Bool :=
   decide (s.holders ≤ 1) &&
   s.ws.all (fun w => decide (w.comps ≤ 1)) &&
   s.ws.all (fun w => !w.canc || (!w.granted && w.outcome ≠ 1)) &&
-  s.ws.all (fun w => !(w.granted && w.outcome = 2) || w.hazard) &&
+  s.ws.all (fun w => !(w.granted && w.outcome = 2) || (cfg.fwdStop && w.hazard)) &&
   s.deadBranch = 0 &&
   isPrefix s.values (s.arrivals.filter (fun i => !(getW s i).canc)) &&
   ((sys cfg).next s |>.isEmpty |> fun dead => !dead || final cfg s) &&
-  (!(final cfg s && noHazard s) ||
-    (s.ws.all (fun w => !startedW w || w.comps = 1) && s.queue.isEmpty && s.schedQ.isEmpty &&
-     (!s.locked || s.holders = 1)))
+  (!(final cfg s && noHazard s) || endOk s)
+
+/-- the full property: the end-state clause without the `noHazard` guard -/
+def safeFull (cfg : Config) (s : St) : Bool := safe cfg s && (!final cfg s || endOk s)
 
 /-- the leak: everything has run to the end, the mutex is locked, nobody holds it -/
 def leaked (cfg : Config) (s : St) : Bool :=
@@ -379,35 +391,44 @@ def coded : Coded St :=
 /-! ### the scenario configurations (mirrored one-to-one by harness/rt/scn_c15.cpp, `v2_*`) -/
 
 /-- hand-off to a queued waiter through the deferred scheduler, no stop request. -/
-def cfgHandoff : Config := ⟨[[.tryCs 0, .runAll, .tryCs 9], [.lock 0]], 1, true⟩
+def cfgHandoff : Config := { scripts := [[.tryCs 0, .runAll, .tryCs 9], [.lock 0]], nw := 1, deferred := true }
 /-- T0 holds, T1 queues waiter 0, T0 unlocks when T1's start() has returned; T2 requests stop on
     the waiter at ANY time (before start, queued, popped, after the hand-off).
     `lock not leaked` FAILS here (see `v2_lock_leak_witness`). -/
 def cfgHandoffStop : Config :=
-  ⟨[[.tryHold 0, .waitIp 1 2, .release 0, .runAll, .tryCs 9], [.waitIp 0 1, .lock 0], [.waitIp 0 1, .stop 0]], 1, true⟩
+  { scripts := [[.tryHold 0, .waitIp 1 2, .release 0, .runAll, .tryCs 9], [.waitIp 0 1, .lock 0], [.waitIp 0 1, .stop 0]], nw := 1, deferred := true }
 /-- deterministic reproducer of the leak: T0 holds, T1 queues waiters 0 and 1 and finishes, T0
     unlocks (hand-off to 0, completion re-scheduled), THEN T2 requests stop on 0, then T0 drains the
     scheduler: waiter 0 completes with done, the mutex stays locked, waiter 1 starves. -/
 def cfgLeakSeq : Config :=
-  ⟨[[.tryHold 0, .waitIp 1 3, .release 0, .waitIp 2 2, .runAll, .tryCs 9], [.waitIp 0 1, .lock 0, .lock 1],
-    [.waitIp 0 3, .stop 0]], 2, true⟩
+  { scripts := [[.tryHold 0, .waitIp 1 3, .release 0, .waitIp 2 2, .runAll, .tryCs 9], [.waitIp 0 1, .lock 0, .lock 1],
+    [.waitIp 0 3, .stop 0]], nw := 2, deferred := true }
 /-- two lockers race on a free mutex, inline scheduler (Dekker window: push vs release). -/
-def cfgRaceInline : Config := ⟨[[.waitAll, .tryCs 9], [.lock 0], [.lock 1]], 2, false⟩
+def cfgRaceInline : Config := { scripts := [[.waitAll, .tryCs 9], [.lock 0], [.lock 1]], nw := 2, deferred := false }
 /-- three waiters queue (racing) behind a holder; inline scheduler: FIFO hand-off chain. -/
 def cfgFifo3 : Config :=
-  ⟨[[.tryHold 0, .waitAll, .release 0, .tryCs 9], [.waitIp 0 1, .lock 0, .lock 2], [.waitIp 0 1, .lock 1]], 3, false⟩
+  { scripts := [[.tryHold 0, .waitAll, .release 0, .tryCs 9], [.waitIp 0 1, .lock 0, .lock 2], [.waitIp 0 1, .lock 1]], nw := 3, deferred := false }
 /-- inline scheduler, one locker, one stop request: the uncontended path of start(). -/
-def cfgInlineStop : Config := ⟨[[.waitAll, .tryCs 9], [.lock 0], [.stop 0]], 1, false⟩
+def cfgInlineStop : Config := { scripts := [[.waitAll, .tryCs 9], [.lock 0], [.stop 0]], nw := 1, deferred := false }
 /-- two queued waiters; the unlock (pop_front) races with the cancellation (try_remove) of the
     first one; deferred scheduler. -/
 def cfgCancelFirst : Config :=
-  ⟨[[.tryHold 0, .waitIp 1 3, .release 0, .runAll, .tryCs 9], [.waitIp 0 1, .lock 0, .lock 1], [.waitIp 1 3, .stop 0]], 2, true⟩
+  { scripts := [[.tryHold 0, .waitIp 1 3, .release 0, .runAll, .tryCs 9], [.waitIp 0 1, .lock 0, .lock 1], [.waitIp 1 3, .stop 0]], nw := 2, deferred := true }
 /-- async_lock races with try_lock on a free mutex, inline scheduler. -/
-def cfgRaceTry : Config := ⟨[[.waitAll, .tryCs 9], [.lock 0], [.tryCs 2]], 1, false⟩
+def cfgRaceTry : Config := { scripts := [[.waitAll, .tryCs 9], [.lock 0], [.tryCs 2]], nw := 1, deferred := false }
+
+/-- T0 holds, waiter 0 queues, T0 unlocks (hand-off, inline scheduler) while T2 probes try_lock. -/
+def cfgHandoffTry : Config :=
+  { scripts := [[.tryHold 0, .waitIp 1 2, .release 0, .waitAll, .tryCs 9], [.waitIp 0 1, .lock 0], [.waitIp 0 1, .tryCs 2]], nw := 1, deferred := false }
+
+/-- the same scenarios with the repaired completion_forwarder (`fwdStop := false`) -/
+def configsFixed : List (String × Config) :=
+  [("v2_handoff_stop", { cfgHandoffStop with fwdStop := false }), ("v2_leak_seq", { cfgLeakSeq with fwdStop := false }),
+   ("v2_inline_stop", { cfgInlineStop with fwdStop := false }), ("v2_cancel_first", { cfgCancelFirst with fwdStop := false })]
 
 def configs : List (String × Config) :=
   [("v2_handoff", cfgHandoff), ("v2_handoff_stop", cfgHandoffStop), ("v2_leak_seq", cfgLeakSeq),
    ("v2_race_inline", cfgRaceInline), ("v2_fifo3", cfgFifo3), ("v2_inline_stop", cfgInlineStop),
-   ("v2_cancel_first", cfgCancelFirst), ("v2_race_try", cfgRaceTry)]
+   ("v2_cancel_first", cfgCancelFirst), ("v2_race_try", cfgRaceTry), ("v2_handoff_try", cfgHandoffTry)]
 
 end Unifex.Proto.MutexV2
